@@ -153,7 +153,8 @@ def lower_limits(prog, rep):
 
 
 def finite(prog, rep):
-    for q in (f"{JM}.MultivariateModel.cdf", f"{JM}.TransformedModel.cdf", f"{JM}.TransformedModel.empirical_cdf", f"{JM}.TransformedModel.pdf"):
+    for q in (f"{JM}.MultivariateModel.cdf", f"{JM}.TransformedModel.cdf", f"{JM}.TransformedModel.empirical_cdf", f"{JM}.TransformedModel.pdf",
+              f"{GHM}.marginal_pdf", f"{GHM}.marginal_cdf", f"{JM}.MultivariateModel.conditional_cdf", f"{GHM}.conditional_cdf"):
         fn = prog.implementation(q)   # a cdf that only delegates to the inherited one is the inherited one
         rep.analysed(fn)
         b = builder(prog, fn)
@@ -352,7 +353,8 @@ def argorder(prog, rep):
         q = f"{GHM}.{name}"
         fn = prog.func(q)
         rep.analysed(fn)
-        b = builder(prog, fn)
+        from vstat.terms import ConvTransparent
+        b = ConvTransparent(builder(prog, fn))      # asarray_chkfinite(x): the values are x's (that x is checked is C06.finite / C18.shared)
         ao = _integral_func(prog, rep, q, name)
         # the index may be normalised first: range(n_dim)[dim] is dim for 0 <= dim < n_dim and n_dim + dim for a negative one
         NORM = ("sub", ("call", G("range"), (nd,), ()), P("dim"))
@@ -556,7 +558,8 @@ def delegate(prog, rep):
         q = f"{GHM}.{name}"
         fn = prog.func(q)
         rep.analysed(fn)
-        b = builder(prog, fn)
+        from vstat.terms import ConvTransparent
+        b = ConvTransparent(builder(prog, fn))
         pcs = path_conditions(prog, fn, b)
         arg = [p for p in fn.positional_params if p != "self"][0]
         found = False
